@@ -1,5 +1,6 @@
 import Driver.Proto
 import BedVerif.Model.Store
+import BedVerif.Model.BufRead
 /-!
 Driver handler for C09 (chunk framing under short writes, short reads, interrupts and hard I/O errors).
 -/
@@ -90,10 +91,15 @@ def handleC09 (inp obs : List String) : Verdict :=
     match parsed, pobs with
     | some ((stack, plan, ps), _), some (o, _) =>
       let hard := plan.any (· == .fail)
-      let classes := [s!"read-stack-{if stack == 0 then "bare" else if stack == 1 then "bufreader" else "lz4"}"] ++ sizeClasses ps ++
+      -- stack 1: BufReader::new (8 KiB); 100 + cap: BufReader::with_capacity(cap)
+      let bufCap : Option Nat := if stack == 1 then some 8192 else if stack ≥ 100 then some (stack - 100) else none
+      let classes := [s!"read-stack-{if stack == 0 then "bare" else if bufCap.isSome then "bufreader" else "lz4"}"] ++ sizeClasses ps ++
+        (match bufCap with | some c => if c < 64 then ["bufreader-small-capacity"] else [] | none => []) ++
         (if hard then ["hard-read-error"] else []) ++ (if plan.any (fun | .give _ => true | _ => false) then ["short-read"] else []) ++
         (if plan.any (· == .interrupted) then ["interrupted-read"] else []) ++ (if plan.isEmpty then ["no-fault"] else [])
-      let model := chunkItems (ps.length + 2) ⟨frames ps, plan⟩
+      let model := match bufCap with
+        | some c => chunkItemsBuf (ps.length + 2) ⟨c, [], ⟨frames ps, plan⟩⟩
+        | none => chunkItems (ps.length + 2) ⟨frames ps, plan⟩
       let nontrivial := !plan.isEmpty
       match o with
       | none => { kind := "specfail", nontrivial, classes, detail := "implementation panicked" }
@@ -109,7 +115,7 @@ def handleC09 (inp obs : List String) : Verdict :=
         | none =>
           -- without a hard error the item sequence is determined (all records, then the end); with one, at
           -- which record it strikes depends on the read-call sequence: only the spec above applies
-          if stack == 0 && !hard && model != items then { kind := "diverge", nontrivial, classes, detail := s!"model yields {model.length} items (error {endsWithErr model}), implementation {items.length} (error {endsWithErr items})" }
+          if (stack == 0 || bufCap.isSome) && !hard && model != items then { kind := "diverge", nontrivial, classes, detail := s!"model yields {model.length} items (error {endsWithErr model}), implementation {items.length} (error {endsWithErr items})" }
           else { kind := "ok", nontrivial, classes }
     | _, _ => { kind := "badcase", detail := "unparsable C09 read case" }
   | _ => { kind := "badcase", detail := "unknown C09 case kind" }
